@@ -530,18 +530,30 @@ theorem executeLife_restart_run (h : s.resident = none) (hn : l.name = .restart)
   unfold lifeRestart0
   rw [if_neg (by simp [hsys])]
 
-theorem executeLife_stop_end (h : s.resident = some ⟨.stop, 1⟩) (hn : l.name = .stop) :
+/-- The second `cancel_all_commands` of the repaired Stop / Restart finds nothing to cancel when the manager
+holds the lifecycle request alone. -/
+theorem lastCancel_alone (n : Name) (hex : s.executing = [l]) (hn : l.name = n) : lastCancel n s = s := by
+  unfold lastCancel
+  split
+  · rw [hex]; simp [cancelAll, hn]
+  · rfl
+
+theorem executeLife_stop_end (h : s.resident = some ⟨.stop, 1⟩) (hn : l.name = .stop) (hex : s.executing = [l]) :
     executeLife s l = lifeDone (endRun s []) l := by
   unfold executeLife
   rw [h, hn]
-  rfl
+  show lifeDone (endRun (lastCancel .stop s) []) l = _
+  rw [lastCancel_alone .stop hex hn]
 
-theorem executeLife_restart_end (h : s.resident = some ⟨.restart, 1⟩) (hn : l.name = .restart) :
+theorem executeLife_restart_end (h : s.resident = some ⟨.restart, 1⟩) (hn : l.name = .restart)
+    (hex : s.executing = [l]) :
     executeLife s l = { endRun s (match s.restartPending with | some p => [p] | none => [])
                         with resident := some ⟨.restart, 2⟩ } := by
   unfold executeLife
   rw [h, hn]
-  rfl
+  show { endRun (lastCancel .restart s) (match s.restartPending with | some p => [p] | none => [])
+         with resident := some ⟨.restart, 2⟩ } = _
+  rw [lastCancel_alone .restart hex hn]
 
 theorem executeLife_restart_begin (h : s.resident = some ⟨.restart, 2⟩) (hn : l.name = .restart) :
     executeLife s l = lifeDone (beginRun s) l := by
@@ -615,10 +627,10 @@ theorem good_life_resident {s0 : State} {pre post : List Req} {l : Req} {s1 : St
   have := hs1 hp1; subst this
   have hex : s1.executing = [r] := by rw [p.ex, hp1]; rfl
   rcases hcases with rfl | rfl | rfl
-  · rw [executeLife_stop_end hres hrn]
+  · rw [executeLife_stop_end hres hrn hex]
     simp only [loop]
     exact (good_life_end p.g0 hex p.lu b).1
-  · rw [executeLife_restart_end hres hrn]
+  · rw [executeLife_restart_end hres hrn hex]
     obtain ⟨q, hq1, hq2, _⟩ := (h1 rfl).2.2 rfl
     have : q = r := by rw [hex] at hq2; simpa using hq2
     subst this
